@@ -18,9 +18,11 @@
 import Batchie.Lemmas.GibbsCache
 import Batchie.Lemmas.GibbsEnergy
 import Batchie.Lemmas.GibbsSweep
+import Batchie.Lemmas.GibbsGamma
+import Batchie.Lemmas.GibbsMvn
 
 namespace Batchie.Props.C08
-open Batchie.Gibbs Finset
+open Batchie.Gibbs Finset Matrix
 
 /-! ## 1. generic completing-the-square identity -/
 
@@ -301,5 +303,172 @@ theorem C08_export_reproduces (dt : Data ℝ) (hw : WellFormed dt) (hp : NoSelfP
     ∧ predictVariance (exportState (mcmcStep dt ω st)) = 1 / (mcmcStep dt ω st).prec := by
   refine ⟨fun _ _ => rfl, fun n hn => ?_, rfl⟩
   rw [(cache_sweep dt hw hp ω st).1 n hn]; rfl
+
+/-! ## 5. conjugate precision blocks
+
+  `L` stands for `log p` of the precision `p` being resampled (the identities hold for every real `L`).  Left-hand
+  sides: the documented log-density of `p` given everything else — its `Gamma(a, rate b)` prior
+  `(a−1)·log p − b·p` plus one factor `½·log p − ½·p·q` per Gaussian variable with precision `p·(…)`.
+  Right-hand sides: the log-density of `Gamma(shape, rate)` with `shape` the code's first argument and
+  `rate = 1/scale − ε`, `ε = 10⁻³` the documented stabiliser. -/
+
+/-- observation noise `prec ~ Gamma(a0, b0)`, `y_n ~ N(mu_n, 1/prec)`; under the cache invariant the code's
+    `sse` is the residual sum of squares of the current parameters -/
+theorem C08_gamma_prec (dt : Data ℝ) (st : State ℝ) (h : CacheOK dt st) (hN : dt.N ≠ 0) (L p : ℝ) :
+    (dt.a0 - 1) * L - dt.b0 * p + ∑ n ∈ range dt.N, ((1/2) * L - (1/2) * p * (dt.y n - mu dt st n)^2)
+      = ((precArgs dt st).shape - 1) * L - (1 / (precArgs dt st).scale - eps) * p := by
+  unfold precArgs
+  simp only [hN, if_false, sumN_eq, natTo_eq, half_val, sqr]
+  rw [rate_of_scale, gamma_conj]
+  have : ∑ n ∈ range dt.N, (dt.y n - mu dt st n)^2 = ∑ n ∈ range dt.N, (dt.y n - st.Mu n) * (dt.y n - st.Mu n) :=
+    sum_congr rfl (fun n hn => by rw [h n (mem_range.mp hn)]; ring)
+  rw [this]
+
+/-- without observations the draw is from the prior `Gamma(a0, rate b0)` (no stabiliser, no clip) -/
+theorem C08_gamma_prec_nodata (dt : Data ℝ) (st : State ℝ) (hN : dt.N = 0) (L p : ℝ) :
+    (dt.a0 - 1) * L - dt.b0 * p = ((precArgs dt st).shape - 1) * L - (1 / (precArgs dt st).scale) * p := by
+  unfold precArgs
+  simp only [hN, if_true, one_div_one_div]
+
+/-- `tau0 ~ Gamma(a0, b0)`, `W0[c] ~ N(0, 1/tau0)` for the `nC` samples -/
+theorem C08_gamma_tau0 (dt : Data ℝ) (st : State ℝ) (L p : ℝ) :
+    (dt.a0 - 1) * L - dt.b0 * p + ∑ c ∈ range dt.nC, ((1/2) * L - (1/2) * p * st.W0 c ^ 2)
+      = ((tau0Args dt st).shape - 1) * L - (1 / (tau0Args dt st).scale - eps) * p := by
+  unfold tau0Args
+  simp only [sumN_eq, natTo_eq, half_val, sqr, ← pow_two]
+  rw [rate_of_scale, gamma_conj]
+
+/-- local scale `phi0[m]`: `phi | aux ~ Gamma(½, rate aux)`, `V0[m] ~ N(0, 1/(phi·eta0))`; and its auxiliary
+    `aux ~ Gamma(½, 1)`, `phi | aux ~ Gamma(½, rate aux)` (half-Cauchy scheme).  Shapes: `1.0` in the code. -/
+theorem C08_gamma_phi0 (st : State ℝ) (aux : ℕ → ℝ) (m : ℕ) (L p : ℝ) :
+    (((1/2 : ℝ) - 1) * L - aux m * p + ((1/2) * L - (1/2) * p * (st.eta0 * st.V0 m ^ 2))
+        = ((1 : ℝ) - 1) * L - (1 / phi0Scale st aux m - eps) * p)
+    ∧ (((1/2 : ℝ) - 1) * L - 1 * p + ((1/2) * L - p * st.phi0 m)
+        = ((1 : ℝ) - 1) * L - (1 / phi0auxScale st m) * p) := by
+  unfold phi0Scale phi0auxScale
+  simp only [half_val, sqr]
+  rw [rate_of_scale, one_div_one_div]
+  constructor <;> ring
+
+/-- global scale `eta0`: `eta | aux ~ Gamma(½, rate aux)`, `V0[m] ~ N(0, 1/(phi0[m]·eta))` for the `nT` treatments;
+    and its auxiliary -/
+theorem C08_gamma_eta0 (dt : Data ℝ) (st : State ℝ) (aux : ℝ) (L p : ℝ) :
+    (((1/2 : ℝ) - 1) * L - aux * p + ∑ m ∈ range dt.nT, ((1/2) * L - (1/2) * p * (st.phi0 m * st.V0 m ^ 2))
+        = ((eta0Args dt st aux).shape - 1) * L - (1 / (eta0Args dt st aux).scale - eps) * p)
+    ∧ (((1/2 : ℝ) - 1) * L - 1 * p + ((1/2) * L - p * st.eta0)
+        = ((1 : ℝ) - 1) * L - (1 / eta0auxScale st) * p) := by
+  unfold eta0Args eta0auxScale
+  simp only [sumN_eq, natTo_eq, half_val, sqr, ← pow_two]
+  rw [rate_of_scale, one_div_one_div, gamma_conj]
+  constructor <;> ring
+
+/-- local scales of the embeddings (`_prec_V2_step` with `V = V2, phi = phi2, eta = eta2`; `_prec_V1_step` likewise) -/
+theorem C08_gamma_phi (V phi : ℕ → ℕ → ℝ) (eta : ℕ → ℝ) (aux : ℕ → ℕ → ℝ) (m d : ℕ) (L p : ℝ) :
+    (((1/2 : ℝ) - 1) * L - aux m d * p + ((1/2) * L - (1/2) * p * (eta d * V m d ^ 2))
+        = ((1 : ℝ) - 1) * L - (1 / phiScale V eta aux m d - eps) * p)
+    ∧ (((1/2 : ℝ) - 1) * L - 1 * p + ((1/2) * L - p * phi m d)
+        = ((1 : ℝ) - 1) * L - (1 / phiAuxScale phi m d) * p) := by
+  unfold phiScale phiAuxScale
+  simp only [half_val, sqr]
+  rw [rate_of_scale, one_div_one_div]
+  constructor <;> ring
+
+/-- per-dimension scales `eta2[d]` / `eta1[d]` -/
+theorem C08_gamma_eta (dt : Data ℝ) (V phi : ℕ → ℕ → ℝ) (eta aux : ℕ → ℝ) (d : ℕ) (L p : ℝ) :
+    (((1/2 : ℝ) - 1) * L - aux d * p + ∑ m ∈ range dt.nT, ((1/2) * L - (1/2) * p * (phi m d * V m d ^ 2))
+        = (etaShape dt - 1) * L - (1 / etaScale dt V phi aux d - eps) * p)
+    ∧ (((1/2 : ℝ) - 1) * L - 1 * p + ((1/2) * L - p * eta d)
+        = ((1 : ℝ) - 1) * L - (1 / etaAuxScale eta d) * p) := by
+  unfold etaShape etaScale etaAuxScale
+  simp only [sumN_eq, natTo_eq, half_val, sqr, ← pow_two]
+  rw [rate_of_scale, one_div_one_div, gamma_conj]
+  constructor <;> ring
+
+/-- multiplicative gamma process: `tau_e = Π_{l≤e} gam_l`, `W[c,e] ~ N(0, 1/tau_e)`, `gam_0 ~ Gamma(2,1)`,
+    `gam_d ~ Gamma(3,1)`.  As a function of the new value `p` of `gam_d` (with `L = log p`, and `Lr e` the log of the
+    other factors of `tau_e`), the log-density is that of `Gamma(shape, rate 1/scale − ε)` up to a term free of `p`.
+    The `tau_e` on the left is the actual cumulative product with `gam_d := p`; the code's `cumprod(gam)/gam[d]`
+    needs `gam_d ≠ 0`. -/
+theorem C08_gamma_gam (dt : Data ℝ) (W : ℕ → ℕ → ℝ) (g : ℕ → ℝ) (d : ℕ) (hg : g d ≠ 0) (L p : ℝ) (Lr : ℕ → ℝ) :
+    ((if d = 0 then (2 : ℝ) else 3) - 1) * L - 1 * p
+        + ∑ c ∈ range dt.nC, ∑ e ∈ range dt.D,
+            (if d ≤ e then (1/2) * (L + Lr e) - (1/2) * cumprod (upd g d p) e * W c e ^ 2 else 0)
+      = ((gamArgs dt W g d).shape - 1) * L - (1 / (gamArgs dt W g d).scale - eps) * p
+        + ∑ _c ∈ range dt.nC, ∑ e ∈ range dt.D, (if d ≤ e then (1/2) * Lr e else 0) := by
+  unfold gamArgs
+  simp only [sumN_eq, natTo_eq, half_val, sqr]
+  rw [rate_of_scale]
+  have hterm : ∀ c e, (if d ≤ e then (1/2) * (L + Lr e) - (1/2) * cumprod (upd g d p) e * W c e ^ 2 else 0)
+      = (if d ≤ e then (1/2) * L else 0) + (if d ≤ e then (1/2) * Lr e else 0)
+        - (1/2) * p * (if d ≤ e then cumprod g e / g d * (W c e * W c e) else 0) := by
+    intro _ e
+    by_cases h : d ≤ e
+    · simp only [h, if_true]; rw [cumprod_upd g d e p h hg]; ring
+    · simp only [h, if_false]; ring
+  simp only [hterm, sum_add_distrib, sum_sub_distrib, ← mul_sum, sum_ite_ge_const, sum_const, card_range,
+    nsmul_eq_mul]
+  by_cases h0 : d = 0
+  · subst h0; simp only [if_true, Nat.sub_zero]; ring
+  · simp only [h0, if_false]; ring
+
+/-! ## 6. the multivariate normal draw
+
+  `sample_mvn_from_precision(Q, mu_part = b)` computes `U = cholesky(Q)ᵀ` and returns
+  `solve_triangular(U, z) + cho_solve(U, b)`.  For an upper-triangular `U` with non-zero diagonal the model's two
+  triangular solves are proved to solve their systems, so the map applied to the standard normal vector `z` is
+  `z ↦ U⁻¹ z + (UᵀU)⁻¹ b` (Mathlib's matrix inverse), and `U⁻¹ U⁻ᵀ = (UᵀU)⁻¹`: mean `Q⁻¹b`, covariance `Q⁻¹`
+  once `UᵀU = Q`.  That `cholesky` returns such a factor is the contract of numpy's routine (trusted base; the model's
+  `chol` is tied to it by the correspondence run only). -/
+
+theorem C08_mvn (D : ℕ) (U : ℕ → ℕ → ℝ) (b z : ℕ → ℝ) (hU : UpperTri D U) (hdiag : ∀ i, i < D → U i i ≠ 0) :
+    toVec D (mvnMap D U b z) = (toMat D U)⁻¹ *ᵥ toVec D z + ((toMat D U)ᵀ * toMat D U)⁻¹ *ᵥ toVec D b
+    ∧ (toMat D U)⁻¹ * ((toMat D U)⁻¹)ᵀ = ((toMat D U)ᵀ * toMat D U)⁻¹
+    ∧ ((toMat D U)ᵀ * toMat D U) * ((toMat D U)ᵀ * toMat D U)⁻¹ = 1 := by
+  refine ⟨mvnMap_eq D U b z hU hdiag, ?_, ?_⟩
+  · rw [Matrix.mul_inv_rev, transpose_nonsing_inv]
+  · have hdet := det_toMat_ne_zero D U hU hdiag
+    apply mul_nonsing_inv
+    rw [det_mul, det_transpose]
+    exact isUnit_iff_ne_zero.mpr (mul_ne_zero hdet hdet)
+
+/-- the same for `sampleMvn` (which factors `Q` itself), under the Cholesky contract -/
+theorem C08_mvn_sample (D : ℕ) (Q : ℕ → ℕ → ℝ) (b z : ℕ → ℝ) (hU : UpperTri D (chol D Q))
+    (hdiag : ∀ i, i < D → chol D Q i i ≠ 0) (hchol : (toMat D (chol D Q))ᵀ * toMat D (chol D Q) = toMat D Q) :
+    toVec D (sampleMvn D Q b z) = (toMat D (chol D Q))⁻¹ *ᵥ toVec D z + (toMat D Q)⁻¹ *ᵥ toVec D b
+    ∧ (toMat D (chol D Q))⁻¹ * ((toMat D (chol D Q))⁻¹)ᵀ = (toMat D Q)⁻¹ := by
+  have h := C08_mvn D (chol D Q) b z hU hdiag
+  rw [hchol] at h
+  exact ⟨h.1, h.2.1⟩
+
+/-! ## non-vacuity of the hypotheses -/
+
+/-- a combination row, a single-agent row and an all-control row -/
+def exData : Data ℝ :=
+  { nC := 2, nT := 2, D := 2, N := 3, y := fun n => n, cline := fun n => n % 2,
+    dd1 := fun n => if n = 0 then 0 else if n = 1 then 1 else -1,
+    dd2 := fun n => if n = 0 then 1 else -1, a0 := 1, b0 := 1 }
+
+example : WellFormed exData ∧ NoSelfPair exData := by
+  constructor
+  · intro n hn
+    have : n < 3 := hn
+    match n, this with
+    | 0, _ => simp [exData]
+    | 1, _ => simp [exData]
+    | 2, _ => simp [exData]
+  · intro n hn
+    have : n < 3 := hn
+    match n, this with
+    | 0, _ => simp [exData]
+    | 1, _ => simp [exData]
+    | 2, _ => simp [exData]
+
+example : CacheOK exData (reconstructMu exData spState) ∧ 0 ≤ spState.prec ∧ 0 < spState.tau0 :=
+  ⟨cache_reconstruct _ _, by norm_num [spState], by norm_num [spState]⟩
+
+example : UpperTri 2 (fun i j => if i ≤ j then 1 else 0) ∧ ∀ i, i < 2 → (fun i j : ℕ => if i ≤ j then (1 : ℝ) else 0) i i ≠ 0 := by
+  constructor
+  · intro i j _ hji; simp; omega
+  · intro i _; simp
 
 end Batchie.Props.C08
